@@ -1141,9 +1141,9 @@ package kapacitor
 //@   requires tm != nil && p != nil && tm.forkStats != nil && forksOK(tm)
 //@   guardcall Collect#1: arg0 == p
 //@   guardcall Collect#2: arg0 == p && !has(tm.forks[key], _k) && _k == name
-//@   ensures [subscribed-once] forall n string :: has(old(tm.forks[fkey(p)]), n) ==>
+//@   ensures [subscribed-once] forall n string :: old(has(tm.forks[fkey(p)], n)) ==>
 //@       gfi(old(tm.forks[fkey(p)][n]), got, int) == old(gfi(tm.forks[fkey(p)][n], got, int)) + 1
-//@   ensures [unfiltered-once] forall n string :: has(old(tm.forks[ekey(p)]), n) && !has(old(tm.forks[fkey(p)]), n) ==>
+//@   ensures [unfiltered-once] forall n string :: old(has(tm.forks[ekey(p)], n) && !has(tm.forks[fkey(p)], n)) ==>
 //@       gfi(old(tm.forks[ekey(p)][n]), got, int) == old(gfi(tm.forks[ekey(p)][n], got, int)) + 1
 //@   loop 1
 //@     modifies gfall(got, int)
@@ -1303,10 +1303,10 @@ package kapacitor
 //@ func (*TaskMaster).delFork
 //@   props C02
 //@   requires tm != nil && tm.taskToForkKeys != nil
-//@   ensures [others-keep-their-forks] forall k forkKey, n string :: n != id && has(old(tm.forks), k) && has(old(tm.forks[k]), n) ==>
+//@   ensures [others-keep-their-forks] forall k forkKey, n string :: n != id && old(has(tm.forks, k) && has(tm.forks[k], n)) ==>
 //@       has(tm.forks, k) && has(tm.forks[k], n) && tm.forks[k][n] == old(tm.forks[k][n])
 //@   ensures [task-forgotten] !has(tm.taskToForkKeys, id)
 //@   loop 1
 //@     invariant tm.taskToForkKeys != nil
-//@     invariant forall k forkKey, n string :: n != id && has(before(tm.forks), k) && has(before(tm.forks[k]), n) ==>
+//@     invariant forall k forkKey, n string :: n != id && before(has(tm.forks, k) && has(tm.forks[k], n)) ==>
 //@       has(tm.forks, k) && has(tm.forks[k], n) && tm.forks[k][n] == before(tm.forks[k][n])
